@@ -119,6 +119,36 @@ Section Formatter.
     end.
 End Formatter.
 
+(* ------------------------------------------------------------------ compatibility of the formatter's tables with the parser's *)
+(* a Binary child with operator o2 stays without parentheses under context strength ctx at position pos *)
+Definition unwrapped_at (F : ftab) (ctx : N) (pos : position) (o2 : nat) : bool :=
+  negb ((bs_bin F o2 <? ctx) || ((bs_bin F o2 =? ctx) && negb (assoc_matches pos (as_bin F o2)))).
+
+Definition is_some {A} (x : option A) : bool := match x with Some _ => true | None => false end.
+
+(* "whenever the formatter omits parentheses around a child at (parent, side), the parser regroups to the same tree":
+   a finite check over the nb binary and nu unary operators *)
+Definition compat (F : ftab) (T : ptab) (nb nu : nat) : bool :=
+  let B := seq 0 nb in
+  let U := seq 0 nu in
+  (* the symbol printed for an operator is the one the parser maps back to it *)
+  forallb (fun o => match bin_of_sym T (sym_bin F o) with Some o' => Nat.eqb o' o | None => false end) B &&
+  forallb (fun u => match un_of_sym T (sym_un F u) with Some u' => Nat.eqb u' u | None => false end) U &&
+  (* a prefix operator whose symbol is also infix must be covered by can_bind_left *)
+  forallb (fun u => cbl F u || negb (is_some (bin_of_sym T (sym_un F u)))) U &&
+  (* (parent o, side, child o2): omitted parentheses regroup to the same tree *)
+  forallb (fun o => forallb (fun o2 => implb (unwrapped_at F (bs_bin F o) PLeft o2) (lbp T o <? rbp T o2)%nat) B) B &&
+  forallb (fun o => forallb (fun o2 => implb (unwrapped_at F (bs_bin F o) PRight o2) (rbp T o <=? lbp T o2)%nat) B) B &&
+  (* the parser's powers are consistent: same level => same associativity *)
+  forallb (fun o2 => forallb (fun o' => implb (lbp T o' <? lbp T o2)%nat (lbp T o' <? rbp T o2)%nat) B) B &&
+  forallb (fun o => (rbp T o <=? S (lbp T o))%nat) B &&
+  (* function calls are always parenthesised as operands; operands of unary operators and range bounds too *)
+  forallb (fun o => bs_call F <=? bs_bin F o) B && (bs_call F <=? bs_un F) && (bs_call F <=? bs_rng F) &&
+  forallb (fun o => bs_bin F o <? bs_un F) B && (bs_rng F <=? bs_un F) &&
+  forallb (fun o => bs_bin F o <=? bs_rng F) B &&
+  (* context strength 0 (inside brackets) never forces parentheses *)
+  forallb (fun o => 0 <? bs_bin F o) B && (0 <? bs_un F) && (0 <? bs_rng F) && (0 <? bs_call F) && (0 <? bs_other F).
+
 (* ------------------------------------------------------------------ text *)
 Record ttab := {
   sym_text : nat -> str;      (* spelling of operator symbol s *)
